@@ -185,6 +185,10 @@ def replay_real(H, cfg, model, want_key=None):
         ctx.cleanup()
 
 
+def KNOWN_KEYS(H):
+    return {k["key"] for k in load_known() if k.get("property") == getattr(H, "PROPERTY", None)}
+
+
 def validate_models(H, cfgs, L, report):
     """run fixtures through modelled-library code and real code; observations must agree"""
     n = 0
@@ -211,6 +215,8 @@ def validate_models(H, cfgs, L, report):
                     outcome = "raise:" + type(ex).__name__
                 finally:
                     ctx.cleanup()
+                if Ctx is RealCtx:
+                    real_key = ctx.failed[0][1] if ctx.failed else None
                 obs.append((outcome, [(l, to_py(v)) for l, v in ctx.observations]))
             n += 1
             (o1, a), (o2, b) = obs
@@ -218,7 +224,10 @@ def validate_models(H, cfgs, L, report):
                 # the REAL code violates the property on this concrete fixture (whatever the modelled run says - floating-point
                 # effects are invisible to the solver's real arithmetic and may differ between numpy and the model):
                 # a replay-confirmed violation in its own right
-                report.append(dict(label=o2[len("violation:"):], key="fixture: " + o2[len("violation:"):], cfg=cfg,
+                lab = o2[len("violation:"):]
+                # a listed known finding keeps its own key (and is then printed as KNOWN-FINDING, once)
+                fkey = real_key if real_key in KNOWN_KEYS(H) else "fixture: " + lab
+                report.append(dict(label=lab, key=fkey, cfg=cfg,
                                    model={k: E._js(v) for k, v in values.items()}, detail="violated by the real code on a concrete fixture input", confirmed=True, notes=[]))
                 continue
             if getattr(H, "VALIDATE_OUTCOME", True) is False and o1.startswith("violation:") and o2.startswith("violation:"):
